@@ -194,6 +194,24 @@ CHECKS = {
              "More/InputOffset/Token. Hooks: internal/decoder/stream.go read()/reset() (build tag verif).",
         technique="TLA+ window-protocol spec model-checked by TLC; scripted-reader schedule replay; TLC trace validation of hook events",
         engine="StreamDecoder", design="8/C09"),
+    "C10": dict(
+        level="model_checking",
+        text="TypeCache.tla models a first-use lookup in the per-type caches as separately scheduled steps (range guard, slot read, "
+             "compile, field-query filter with its nested lookup for the query's own type, publish; copy-on-write map for heap types) "
+             "in the production variant (unsynchronised publish) and the race-build variant (RWMutex with writer preference); TLC proves "
+             "that every call returns its own type's complete program, slots only hold their owner's program, locks are sane and never "
+             "leak, no deadlock (2 goroutines x 2 calls, 3 x 1, both sides), termination under weak fairness, and FINDS three named "
+             "deviations incl. the race build's self-deadlock before fix 371b1d0. Binding: (S) every behaviour of GenSpec is replayed "
+             "by a cooperative scheduler built on the verif hooks on never-used generated types in the production and -race builds - "
+             "results must equal the sequential ones, the goroutines must be at the hooks the behaviour predicts, everything must "
+             "return; (R) the Go scheduler interleaves 2..64 goroutines x mixed operations over cold and shared types, a shared "
+             "FieldQuery and shared Paths at GOMAXPROCS 1..16, compared with pre-computed results, and the -race build's reports are "
+             "attributed to library frames.",
+        note="trusted: TLC; the hook points (before the slot read, before compiling, before the write) as the granularity of the "
+             "replayed interleavings; the Go race detector. Part R samples schedules. Pools and VM state outside the caches are covered "
+             "by part R and the race detector only. Hooks: internal/{encoder,decoder}/compile*_{race,norace}.go, compiler.go, compile.go.",
+        technique="TLA+ cache-protocol spec (production and race-build variants, three named deviations) model-checked by TLC incl. deadlock and liveness; TLC-generated schedules replayed through hook-based cooperative scheduling in both builds; concurrent stress vs sequential results with race-detector reports",
+        engine="TypeCache", design="8/C10"),
     "C14": dict(
         level="model_checking",
         text="TypeLayout.tla models AnalyzeTypeAddr's inference (lowest / highest listed descriptor, alignment relative to the running "
@@ -280,7 +298,7 @@ def main():
 
 NA = {}
 HOOK_COMMITS = ["cb16685", "7053e9c", "17a7452"]
-FIX_COMMITS = ["3ba2124", "35e540e", "5d9c0a9", "182cdbb", "c177d40", "4cc9b5c", "e04537c", "f4cd737", "4b54f48", "54b79dc", "663fc64", "4477a51", "371b1d0"]
+FIX_COMMITS = ["3ba2124", "35e540e", "5d9c0a9", "182cdbb", "c177d40", "4cc9b5c", "e04537c", "f4cd737", "4b54f48", "54b79dc", "663fc64", "4477a51", "371b1d0", "3797c82"]
 ENGINES = [
     dict(name="TypeLayout", path="specs/TypeLayout.tla", serves_properties=["C14"],
          kind_free_text="TLA+ model of the type-address window inference and slot arithmetic (TypeLayout.tla) and trace specification TypeCacheTrace.tla for recorded cache lookups"),
